@@ -242,7 +242,7 @@ class Bufs:
         return self.ib.guards_ok() and self.ob.guards_ok() and self.ib.data() == self.data
 
 
-def drive(entry, m, bufs, ins, outs, irep=0, orep=0, rec=None, tail=0, xw=False):
+def drive(entry, m, bufs, ins, outs, irep=0, orep=0, rec=None, tail=0, xw=False, pause=0.0):
     """Perform the calls of one plan.  ins: list of chunk sizes; ("S", k) = k starving calls (nothing new, no output
     space).  outs: list of grants.  After the lists: irep bytes per call (0 = all the rest) / orep bytes (0 = all).
     Returns dict(ret, op, tin, calls, problems)."""
@@ -304,6 +304,8 @@ def drive(entry, m, bufs, ins, outs, irep=0, orep=0, rec=None, tail=0, xw=False)
         s.next_in = base_i; s.avail_in = avail
         s.next_out = base_o; s.avail_out = g
         ti, to = s.total_in, s.total_out
+        if pause:
+            time.sleep(pause)       # input arriving over time: lets worker threads run between the calls
         ret = code(sref, action)
         calls += 1
         uin = avail - s.avail_in; uout = g - s.avail_out
@@ -401,6 +403,13 @@ def expand_plan(p, n, olen):
         return ins, p.get("outs", []), p.get("irep", 0), p.get("orep", 0)
     if k == "starve":
         return [p["at"], ("S", p.get("n", 6))], [], 0, 0
+    if k == "pieces":
+        return [], [], p["size"], 0
+    if k == "tail":
+        # bulk in one call, the last `tail` bytes one at a time except the very last one, then starving calls
+        # (stalled pipe: LZMA_RUN with nothing new), then the rest
+        t = min(p["tail"], n)
+        return [n - t] + [1] * max(0, t - 1) + [("S", p.get("n", 10))], [], 0, 0
     raise ValueError(k)
 
 
@@ -445,7 +454,7 @@ def run_subject(sub, budget):
             return dict(ret="INIT_" + lz.retname(m.ret), tin=0, olen=0, dig=dig(b"")), []
         bufs = Bufs(m.data, cap if cap is not None else (sub.get("cap") or max(4096, 12 * len(m.data) + 4096)))
         ins, outs, irep, orep = expand_plan(plan, bufs.n, one["olen"] if one else 0)
-        r = drive(entry, m, bufs, ins, outs, irep, orep, rec, tail, xw=bool(plan.get("xw")))
+        r = drive(entry, m, bufs, ins, outs, irep, orep, rec, tail, xw=bool(plan.get("xw")), pause=plan.get("pause", 0.0))
         o = observe(m, bufs, r)
         probs = list(r["problems"])
         if not bufs.intact():
@@ -460,6 +469,14 @@ def run_subject(sub, budget):
         o["_full"] = bufs.ob.data(r["op"]) if sub.get("want_output") else None
         return o, probs
 
+    def one_run_full(plan):
+        m = make(entry, args, data)
+        bufs = Bufs(m.data, sub.get("cap") or max(4096, 12 * len(m.data) + 4096))
+        r = drive(entry, m, bufs, [], [], 0, 0)
+        out = bufs.ob.data(r["op"])
+        unmake(m)
+        return out, r
+
     one, probs = one_run({"k": "oneshot"})
     one.pop("_full", None)
     res["one"] = one
@@ -467,6 +484,19 @@ def run_subject(sub, budget):
         res["problems"].append(dict(what=p, plan={"k": "oneshot"}))
     if one["ret"].startswith("INIT_"):
         return res
+    if sub.get("roundtrip") and one["ret"] == "STREAM_END":
+        # the one-shot output must decode back to the input (sliced outputs are compared with it byte for byte)
+        o1, _ = one_run_full({"k": "oneshot"})
+        dec_entry, dec_args = sub["roundtrip"]
+        dm = make(dec_entry, dec_args, o1)
+        if dm.ret == lz.OK:
+            db = Bufs(dm.data, len(data) + 4096)
+            dr = drive(dec_entry, dm, db, [], [], 0, 0)
+            if dr["ret"] != lz.STREAM_END or db.ob.data(dr["op"]) != data:
+                res["problems"].append(dict(what="roundtrip", plan={"k": "oneshot"}, obs=dict(ret=lz.retname(dr["ret"]), olen=dr["op"])))
+        else:
+            res["problems"].append(dict(what="roundtrip", plan={"k": "oneshot"}, obs=dict(ret="INIT_" + lz.retname(dm.ret))))
+        unmake(dm)
     cap = one["olen"] + 4096
     exempt = exempt and one["ret"] != "STREAM_END"      # the exception is for REJECTED input behind a BCJ filter only
     nrec = 0
@@ -474,6 +504,10 @@ def run_subject(sub, budget):
         reps = [plan]
         if plan["k"] == "every2":
             reps = [{"k": "two", "at": k} for k in range(plan.get("from", 0), plan["to"] + 1)]
+        if plan["k"] == "around_stop":
+            # every two-piece split next to the place where the one-shot run stopped consuming (error position / end)
+            nn = len(data) - (args.get("header_len", 0) if entry == "block_decoder" else 0)
+            reps = [{"k": "two", "at": k} for k in range(max(0, one["tin"] - plan.get("w", 6)), min(nn, one["tin"] + plan.get("w", 6)) + 1)]
         for p in reps:
             want_rec = bool(plan.get("rec")) and budget[0] > 0
             rec = [] if want_rec else None
@@ -516,6 +550,65 @@ def run_group(g):
         unmake(m)
         runs.append(dict(cfg=cfg, dig=dig(out), ret=lz.retname(r["ret"]), text=text, problems=r["problems"]))
     return dict(id=g["id"], entry=g["entry"], cls=g["cls"], runs=runs)
+
+
+# ------------------------------------------------------------------------------------------------ text vs structure
+MODE = {"fast": lz.MODE_FAST, "normal": lz.MODE_NORMAL}
+MF = {"hc3": lz.MF_HC3, "hc4": lz.MF_HC4, "bt2": lz.MF_BT2, "bt3": lz.MF_BT3, "bt4": lz.MF_BT4}
+FIELDS = ("dict_size", "lc", "lp", "pb", "mode", "nice_len", "mf", "depth")
+
+
+def run_strcmp(it):
+    """it: dict(text, filter 'lzma1'|'lzma2', prefix spec, want {dict,lc,lp,pb,mode,mf,nice,depth}, data hex | None).
+    lzma_str_to_filters(text) must denote exactly `want`; encoding with the text form and with a structure filled
+    from `want` must give the same bytes."""
+    L = lz.L()
+    w = it["want"]
+    want = [w["dict"], w["lc"], w["lp"], w["pb"], MODE[w["mode"]], w["nice"], MF[w["mf"]], w["depth"]]
+    out = (lz.Filter * 5)()
+    epos = C.c_int(0)
+    tbuf = C.create_string_buffer(it["text"].encode())
+    L.lzma_str_to_filters.argtypes = [C.c_void_p] + list(L.lzma_str_to_filters.argtypes[1:])
+    msg = L.lzma_str_to_filters(C.addressof(tbuf), C.byref(epos), out, STR_ALL_FILTERS, None)
+    res = dict(id=it["id"], text=it["text"], want=want, got=[], msg=(msg or b"").decode("latin1"), digs=[], cls=it.get("cls", "str"))
+    if msg is not None:
+        return res
+    n = 0
+    while out[n].id != UNKNOWN:
+        n += 1
+    o = C.cast(out[n - 1].options, C.POINTER(lz.OptLzma)).contents
+    res["got"] = [getattr(o, f) for f in FIELDS]
+    res["ids"] = [out[i].id for i in range(n)]
+    if it.get("data") is not None:
+        data = bytes.fromhex(it["data"])
+        # structure form: every field set explicitly from `want` (not through lzma_lzma_preset)
+        so = lz.OptLzma()
+        for f, v in zip(FIELDS, want):
+            setattr(so, f, v)
+        pre = build_filters(it.get("prefix_spec") or [])
+        specs = []
+        k = 0
+        while pre[k].id != UNKNOWN:
+            specs.append((pre[k].id, None)); k += 1
+        arr = (lz.Filter * 5)()
+        for i in range(k):
+            arr[i].id = pre[i].id; arr[i].options = pre[i].options
+        arr[k].id = FID[it["filter"]]; arr[k].options = C.cast(C.pointer(so), C.c_void_p).value
+        arr[k + 1].id = UNKNOWN
+        for label, fl in (("text", out), ("struct", arr)):
+            c = lz.Coder()
+            r = c.init("lzma_raw_encoder", fl)
+            if r != lz.OK:
+                res["digs"].append(dict(form=label, dig="INIT_" + lz.retname(r)))
+                c.end()
+                continue
+            m = Made(); m.c = c; m.data = data
+            bufs = Bufs(data, 2 * len(data) + 8192)
+            rr = drive("raw_encoder", m, bufs, [], [], 0, 0)
+            res["digs"].append(dict(form=label, dig=dig(bufs.ob.data(rr["op"])), ret=lz.retname(rr["ret"])))
+            c.end()
+    L.lzma_filters_free(out, None)
+    return res
 
 
 # ------------------------------------------------------------------------------------------------ stateless parsers
@@ -653,12 +746,13 @@ def main():
     with open(outp, "w") as out, open(outp + ".cur", "w") as cur:
         for kind, items, fn in (("subject", job.get("subjects", []), lambda x: run_subject(x, budget)),
                                 ("group", job.get("groups", []), run_group),
-                                ("parse", job.get("parses", []), run_parse)):
+                                ("parse", job.get("parses", []), run_parse),
+                                ("strcmp", job.get("strcmps", []), run_strcmp)):
             for it in items:
                 cur.seek(0); cur.truncate(); cur.write("%s %s\n" % (kind, it["id"])); cur.flush()
                 # watchdog: SIGALRM is not handled, so an item that does not finish (endless loop inside liblzma,
                 # deadlock of the threaded decoder) kills the process with status -14
-                signal.alarm(int(job.get("item_timeout", 300)))
+                signal.alarm(int(it.get("timeout") or job.get("item_timeout", 300)))
                 try:
                     r = fn(it)
                 except (RuntimeError, ValueError, AssertionError) as ex:
